@@ -114,5 +114,6 @@ func TestTriageCrash(t *testing.T) {
 	edited := cbor.Encode(root)
 	fmt.Println("edited proof:", root)
 	defer func() { fmt.Println("recovered (not reached when the panic is in a worker goroutine):", recover()) }()
-	fmt.Println("Verify returned:", n.verify(fiatshamir.Name, verifierCtx().build(), stmtSel{}, edited))
+	err = n.verify(fiatshamir.Name, verifierCtx().build(), stmtSel{}, edited)
+	fmt.Printf("Verify returned: %+v\n", err)
 }
